@@ -277,6 +277,12 @@ def mutate_progbook(pg, m):
         for ws in (T, Sp, E):
             for (r, c) in find(ws, "P2"):
                 ws.cell(r, c).value = "P1"
+    elif m == "progbook_duplicate_program_consistent":  # the same abbreviation twice on every sheet and nothing else wrong (no interaction names the lost program)
+        for ws in (T, Sp, E):
+            for (r, c) in find(ws, "P2"):
+                ws.cell(r, c).value = "P1"
+        r, c = find(E, "P1+P2=0.95")[0]
+        E.cell(r, c).value = None
     elif m == "progbook_reserved_program_name":
         for ws in (T, Sp, E):
             for (r, c) in find(ws, "P2"):
